@@ -232,7 +232,10 @@ def generate(tier):
                 cs.add(d, cs.enum(d, insert_at(base, named('Data', [('x', 'u8')]), pos)), 'R2-data-variant', 'reject')
                 cs.add(d, cs.enum(d, insert_at(base, tup('Data', []), pos)), 'R2-empty-tuple', None)
             if d == 'EnumTable':
-                cs.add(d, cs.enum(d, insert_at(base, tup('Data', ['u8'], [('disabled',)]), 'middle')), 'control-disabled-data', 'accept')
+                # the macro skips disabled variants before its unit-only test, but the `E::Data => panic!(..)` arm it emits for
+                # Index is not a valid pattern for a tuple variant: rustc rejects the item (E0532).  Macro-level accept, so the
+                # item is kept for mode A only (observed quirk; the enum is not field-less, hence outside C10 as well).
+                cs.add(d, cs.enum(d, insert_at(base, tup('Data', ['u8'], [('disabled',)]), 'middle')), 'R2-disabled-data-variant-modeA-only', None)
                 cs.add(d, cs.enum(d, [unit('OnlyOff', [('disabled',)])]), 'R2-no-enabled-variant', None)
         # R4 repeated single-use attributes, enum level
         for kind, val in (('serialize_all', 'snake_case'), ('ascii_case_insensitive', None), ('use_phf', None), ('prefix', 'p'),
@@ -308,7 +311,8 @@ def generate(tier):
         cs.add(d, cs.enum(d, insert_at(base_variants(d), tup('Good', ['String'], [('default',)]), 'middle')), 'control-default', 'accept')
         cs.add(d, cs.enum(d, insert_at(base_variants(d), named('Good', [('s', 'String')], [('default',)]), 'last')), 'control-default', 'accept')
     for d in ('Display', 'AsRefStr', 'IntoStaticStr'):
-        cs.add(d, cs.enum(d, insert_at(base_variants(d), tup('Good', ['String'], [('transparent',)]), 'middle')), 'control-transparent', 'accept')
+        inner_ty = "&'static str" if d == 'IntoStaticStr' else 'String'   # IntoStaticStr forwards through From<&Inner> for &'static str
+        cs.add(d, cs.enum(d, insert_at(base_variants(d), tup('Good', [inner_ty], [('transparent',)]), 'middle')), 'control-transparent', 'accept')
     # R7 placeholders on a unit variant; empty braces on a tuple variant
     for lit in ('{0}', '{x}', 'a{}b', 'pre {name:>4}', '{{{0}}}'):
         for pos in positions:
